@@ -323,3 +323,92 @@ func ruleTMPLFIELDMAINT(c *Ctx) {
 		}
 	}
 }
+
+// TMPL(node-id): the Go identifier of a node type is `nodePrefix + name`, produced by the
+// node_id template function. The declaration of the constants (listener.go) and every reference
+// to them from generated Go code (parser tables, parser, stream, selectors, ast factory and
+// accessors) must use the same spelling: wherever a template prints the identifier of a node
+// type - the constant declarations, or a name right after `{{template "nodeTypePkg" $}}` /
+// `{{pkg "main"}}` inside an iteration over node types - it goes through node_id. A bare
+// {{.Name}} compiles only while nodePrefix is empty.
+func ruleTMPLNODEID(c *Ctx) {
+	const rule = "TMPL(node-id)"
+	tf, err := c.templates()
+	if err != nil {
+		c.Lost(rule, "gen/templates", "%v", err)
+		return
+	}
+	n := 0
+	for _, fn := range sortedKeys(tf) {
+		if !strings.HasPrefix(fn, "go_") {
+			continue
+		}
+		f := tf[fn]
+		ord := 0
+		var visit func(list *parse.ListNode, inTypes bool, inConst bool)
+		check := func(an *parse.ActionNode, why string) {
+			ord++
+			n++
+			key := fmt.Sprintf("%s:node-name#%d", fn, ord)
+			if strings.Contains(an.String(), "node_id") {
+				c.addT(rule, key, tmplPos(f, an), OK, "%s goes through node_id", why)
+			} else {
+				c.addT(rule, key, tmplPos(f, an), Violation, "%s is printed as %s, not through node_id: with a non-empty nodePrefix the declared constants and the references to them are spelled differently and the generated package does not build", why, an.String())
+			}
+		}
+		visit = func(list *parse.ListNode, inTypes bool, inConst bool) {
+			if list == nil {
+				return
+			}
+			for i, nd := range list.Nodes {
+				switch x := nd.(type) {
+				case *parse.TextNode:
+					if strings.Contains(string(x.Text), "const (") {
+						inConst = true
+					}
+					if strings.Contains(string(x.Text), "\n)") {
+						inConst = false
+					}
+				case *parse.RangeNode:
+					p := x.Pipe.String()
+					types := inTypes || strings.Contains(p, ".Types.RangeTypes") || strings.Contains(p, ".Options.ExtraTypes") || strings.Contains(p, "expand_selector")
+					// a declaration: the first action of a range over node types inside `const (`
+					if inConst && fn == "go_listener.go.tmpl" && (strings.Contains(p, ".Types.RangeTypes") || strings.Contains(p, ".Options.ExtraTypes")) && x.List != nil {
+						for _, b := range x.List.Nodes {
+							if an, ok := b.(*parse.ActionNode); ok {
+								check(an, "the declared node type constant")
+								break
+							}
+						}
+					}
+					visit(x.List, types, inConst)
+					visit(x.ElseList, inTypes, inConst)
+				case *parse.IfNode:
+					visit(x.List, inTypes, inConst)
+					visit(x.ElseList, inTypes, inConst)
+				case *parse.WithNode:
+					visit(x.List, inTypes, inConst)
+					visit(x.ElseList, inTypes, inConst)
+				case *parse.TemplateNode:
+					if x.Name == "nodeTypePkg" && i+1 < len(list.Nodes) {
+						if an, ok := list.Nodes[i+1].(*parse.ActionNode); ok {
+							check(an, "a reference to a node type constant")
+						}
+					}
+				case *parse.ActionNode:
+					if inTypes && strings.Contains(x.String(), `pkg "main"`) && i+1 < len(list.Nodes) {
+						if an, ok := list.Nodes[i+1].(*parse.ActionNode); ok {
+							check(an, "a reference to a node type constant")
+						}
+					}
+				}
+			}
+		}
+		for _, dn := range sortedTreeKeys(f.Trees) {
+			visit(f.Trees[dn].Root, false, false)
+		}
+	}
+	if n < 10 {
+		c.addT(rule, "count:", "", CountDropped, "only %d node type identifiers found in the Go templates", n)
+	}
+}
